@@ -145,8 +145,13 @@ func genC13(r *Rng, tier string, idx int) *Program {
 		p.Cfg.MinCheckpointPageN = []int{2, 3, 5, 20, 50, 1000}[r.Intn(6)]
 	}
 	p.Cfg.TruncatePageN = []int{0, 3, 10, 40, 500}[r.Intn(5)]
-	if idx%10 < 7 && p.Cfg.TruncatePageN != 0 && p.Cfg.TruncatePageN <= p.Cfg.MinCheckpointPageN {
-		p.Cfg.TruncatePageN = p.Cfg.MinCheckpointPageN * 4 // known finding F14 excluded from 70% of the runs
+	if idx%10 == 6 {
+		// variant in which the emergency truncate threshold is the lowest one (known finding F14)
+		p.Cfg.MinCheckpointPageN = 1000
+		p.Cfg.TruncatePageN = []int{3, 10, 40}[r.Intn(3)]
+		p.Variant = "truncate-lowest"
+	} else if p.Cfg.TruncatePageN != 0 && p.Cfg.TruncatePageN <= p.Cfg.MinCheckpointPageN {
+		p.Cfg.TruncatePageN = p.Cfg.MinCheckpointPageN * 4 // F14 excluded from the other 90% of the runs
 	}
 	p.Cfg.CheckpointMs = []int64{0, 1000, 60000, 3600000}[r.Intn(4)]
 	p.Cfg.MaxSyncWALBytes = []int64{0, 1, 3000, 64 << 20}[r.Intn(4)]
